@@ -12,17 +12,19 @@ structure Quiet (w w' : World) : Prop where
   same : Same w.db w.js w'.js
   db : w'.db = w.db
   kle : KLe w.js w'.js
+  ng : NGrow w w'
 
-theorem Quiet.refl (w : World) : Quiet w w := ⟨Same.refl _ _, rfl, KLe.refl _⟩
+theorem Quiet.refl (w : World) : Quiet w w := ⟨Same.refl _ _, rfl, KLe.refl _, NGrow.refl _⟩
 theorem Quiet.trans {a b c : World} (h1 : Quiet a b) (h2 : Quiet b c) : Quiet a c :=
-  ⟨h1.same.trans (by have := h2.same; rw [h1.db] at this; exact this), h2.db.trans h1.db, h1.kle.trans h2.kle⟩
+  ⟨h1.same.trans (by have := h2.same; rw [h1.db] at this; exact this), h2.db.trans h1.db, h1.kle.trans h2.kle,
+   h1.ng.trans h2.ng⟩
 
 theorem Quiet.noteAddr {w w' : World} (h : Quiet w w') (a : Nat) : Quiet w (w'.noteAddr a) :=
   ⟨by rw [Proofs.EvmHost.noteAddr_js]; exact h.same, by rw [Proofs.EvmHost.noteAddr_db]; exact h.db,
-   by rw [Proofs.EvmHost.noteAddr_js]; exact h.kle⟩
+   by rw [Proofs.EvmHost.noteAddr_js]; exact h.kle, h.ng.noteAddr a⟩
 theorem Quiet.noteSlot {w w' : World} (h : Quiet w w') (a k : Nat) : Quiet w (w'.noteSlot a k) :=
   ⟨by rw [Proofs.EvmHost.noteSlot_js]; exact h.same, by rw [noteSlot_db]; exact h.db,
-   by rw [Proofs.EvmHost.noteSlot_js]; exact h.kle⟩
+   by rw [Proofs.EvmHost.noteSlot_js]; exact h.kle, h.ng.noteSlot a k⟩
 
 theorem quiet_foldl_noteSlot {w : World} (a : Nat) : ∀ (keys : List Nat) (w' : World), Quiet w w' →
     Quiet w (keys.foldl (fun w k => w.noteSlot a k) w') := by
@@ -32,16 +34,19 @@ theorem quiet_foldl_noteSlot {w : World} (a : Nat) : ∀ (keys : List Nat) (w' :
   | cons k ks ih => intro w' h; simp only [List.foldl_cons]; exact ih _ (h.noteSlot a k)
 
 theorem quiet_initialLoad {w w' : World} (h : Quiet w w') (a : Nat) (ks : List Nat) :
-    Quiet w { w' with js := Journal.initialAccountLoad w'.db w'.js a ks } := by
-  refine ⟨h.same.trans ?_, h.db, h.kle.trans ?_⟩
-  · show Same w.db w'.js (Journal.initialAccountLoad w'.db w'.js a ks)
+    Quiet w ({ w' with js := Journal.initialAccountLoad w'.db w'.js a ks }.noteAddr a) := by
+  refine ⟨h.same.trans ?_, ?_, h.kle.trans ?_, h.ng.trans (NGrow.of_js_note (keys_initialAccountLoad _ _ _ _))⟩
+  · rw [Proofs.EvmHost.noteAddr_js]
+    show Same w.db w'.js (Journal.initialAccountLoad w'.db w'.js a ks)
     rw [h.db]; exact initialAccountLoad_same
-  · unfold Journal.initialAccountLoad; exact KLe.setAcct _ _ _
+  · rw [Proofs.EvmHost.noteAddr_db]; exact h.db
+  · rw [Proofs.EvmHost.noteAddr_js]; unfold Journal.initialAccountLoad; exact KLe.setAcct _ _ _
 
 /-- replacing the journal's spec / pre-warmed set (no account, no journal entry touched) -/
 theorem Quiet.setMeta {w w' : World} (h : Quiet w w') (js' : Journal.JState) (hs : js'.state = w'.js.state)
     (hj : js'.journal = w'.js.journal) : Quiet w { w' with js := js' } :=
-  ⟨h.same.trans ⟨bal_congr_state hs, by unfold JB; rw [hj]⟩, h.db, h.kle.trans (KLe.of_state_eq hs)⟩
+  ⟨h.same.trans ⟨bal_congr_state hs, by unfold JB; rw [hj]⟩, h.db, h.kle.trans (KLe.of_state_eq hs),
+   h.ng.trans (NGrow.of_js (Keys.of_state_eq hs))⟩
 
 theorem quiet_accessList {w : World} : ∀ (l : List AccessItem) (w' : World), Quiet w w' →
     Quiet w (l.foldl (fun w it =>
@@ -53,14 +58,15 @@ theorem quiet_accessList {w : World} : ∀ (l : List AccessItem) (w' : World), Q
   | cons it l ih =>
     intro w' h
     simp only [List.foldl_cons]
-    exact ih _ (quiet_foldl_noteSlot _ _ _ ((quiet_initialLoad h it.addr it.keys).noteAddr it.addr))
+    exact ih _ (quiet_foldl_noteSlot _ _ _ (quiet_initialLoad h it.addr it.keys))
 
 /-- the journal with another spec / pre-warmed set -/
 def setMetaW (w : World) (spec : Nat) (pre : Nat → Bool) : World :=
   { w with js := { w.js with spec := spec, preloaded := pre } }
 
 theorem quiet_setMetaW {w w' : World} (h : Quiet w w') (spec : Nat) (pre : Nat → Bool) : Quiet w (setMetaW w' spec pre) :=
-  ⟨h.same.trans ⟨bal_congr_state rfl, rfl⟩, h.db, h.kle.trans (KLe.of_state_eq rfl)⟩
+  ⟨h.same.trans ⟨bal_congr_state rfl, rfl⟩, h.db, h.kle.trans (KLe.of_state_eq rfl),
+   h.ng.trans (NGrow.of_js (Keys.of_state_eq rfl))⟩
 
 /-- the access-list loop of `load_accounts` -/
 def accessFold (e : Evm.Env) (w : World) : World :=
